@@ -684,3 +684,272 @@ Theorem C17_write_offset_bytes_exact : forall f region vo off region',
             le_join (firstn n (skipn vo region')) = w mod 256 ^ Z.of_nat n.
 Proof. exact write_offset_bytes_exact. Qed.
 Print Assumptions C17_write_offset_bytes_exact.
+
+(* ---------------------------------------------------------------------------------------------------------------- *)
+(* round 6 *)
+From Verif Require Import Codec.RefusalProofs.
+
+(* completeness direction for the formats that only had a round trip: refusal is exact *)
+Theorem C17_signbit_refused_iff : forall f off,
+  is_t32_adr_fmt f \/ is_a32_u23_fmt f \/ is_a32_u23_split_fmt f -> int64 off ->
+  (encode_offset f off = None <-> ~ (Z.abs off mod 2 ^ discard f = 0 /\ Z.abs off / 2 ^ discard f < 2 ^ bits f)).
+Proof. exact signbit_refused_iff. Qed.
+Print Assumptions C17_signbit_refused_iff.
+
+Theorem C17_adr_blx_refused_iff : forall f off,
+  is_adr_fmt f \/ is_a32_blx_fmt f -> int64 off ->
+  (encode_offset f off = None <->
+   ~ (off mod 2 ^ discard f = 0 /\ - 2 ^ (bits f - 1) <= off / 2 ^ discard f < 2 ^ (bits f - 1))).
+Proof. exact signed_layout_refused_iff. Qed.
+Print Assumptions C17_adr_blx_refused_iff.
+
+(* x86 shifts / rotates / double shifts by an immediate: for EVERY int64 immediate the CPU shifts by imm mod 32 (mod 64 with
+   REX.W) -- truncating the count to a byte loses nothing the architecture does not mask; by-1 form exactly for count byte 1 *)
+Theorem C17_x86_rot_imm_exact : forall size longform imm, size_ok4 size ->
+  let e := rot_imm size longform imm in
+  cpu_count size e = imm mod (count_mask size + 1) /\
+  (0 <= imm <= count_mask size -> cpu_count size e = imm) /\
+  (ae_immsize e = 0 <-> imm mod 256 = 1 /\ longform = false) /\
+  ae_opsize e = size /\ (ae_immsize e = 1 -> ae_field e = imm mod 256).
+Proof. exact rot_imm_exact. Qed.
+Print Assumptions C17_x86_rot_imm_exact.
+
+Theorem C17_x86_shld_imm_exact : forall right size imm, (size = 2 \/ size = 4 \/ size = 8) ->
+  let e := shld_imm right size imm in
+  cpu_count size e = imm mod (count_mask size + 1) /\ (0 <= imm <= count_mask size -> cpu_count size e = imm) /\
+  ae_immsize e = 1 /\ ae_field e = imm mod 256.
+Proof. exact shld_imm_exact. Qed.
+Print Assumptions C17_x86_shld_imm_exact.
+
+(* asmjit/core/fixup.h re-extracted from the source text: the enumerators of OffsetType in declaration order are the
+   constructors of the model's otype (each once: the driver numbers them 0..11) and has_sign_bit() lists exactly the types the
+   model's has_sign_bit accepts *)
+Theorem C17_fixup_current :
+  C17Layouts.gen_otype_order = expected_otype_order /\ C17Layouts.gen_sign_types = expected_sign_types.
+Proof. exact C17Layouts.gen_fixup_ok. Qed.
+Print Assumptions C17_fixup_current.
+
+Theorem C17_has_sign_bit_spec : forall t, has_sign_bit t = true <-> In t expected_sign_types.
+Proof. exact has_sign_bit_spec. Qed.
+Print Assumptions C17_has_sign_bit_spec.
+
+Theorem C17_otype_order_complete : forall t, In t expected_otype_order /\ NoDup expected_otype_order.
+Proof. exact otype_order_complete. Qed.
+Print Assumptions C17_otype_order_complete.
+
+From Verif Require Import Codec.CompletenessProofs.
+
+(* a malformed format is refused, for every type and every offset (was only compared on three formats) *)
+Theorem C17_encode_offset_malformed : forall f off,
+  (vsize f <> 1 /\ vsize f <> 2 /\ vsize f <> 4 /\ vsize f <> 8) \/ bits f = 0 \/ 8 * vsize f < bits f ->
+  encode_offset f off = None.
+Proof. exact encode_offset_malformed. Qed.
+Print Assumptions C17_encode_offset_malformed.
+
+(* completeness: every value of a contiguous field is reached -- the encoder and the architectural decoder are inverse
+   bijections between the accepted offsets and the field values *)
+Theorem C17_signed_surjective : forall f r,
+  ty f = SignedOffset -> wf_contig f -> bits f + discard f <= 64 -> 0 <= r < 2 ^ bits f ->
+  let off := decode_signed f (r * 2 ^ shift f) in
+  int64 off /\ encode_offset f off = Some (r * 2 ^ shift f).
+Proof. exact signed_surjective. Qed.
+Print Assumptions C17_signed_surjective.
+
+Theorem C17_unsigned_surjective : forall f r,
+  ty f = UnsignedOffset -> wf_contig32 f -> 0 <= r < 2 ^ bits f ->
+  let off := decode_unsigned f (r * 2 ^ shift f) in
+  int64 off /\ encode_offset f off = Some (r * 2 ^ shift f).
+Proof. exact unsigned_surjective. Qed.
+Print Assumptions C17_unsigned_surjective.
+
+(* x86: the sign-extended imm8 form is chosen exactly when the (size-adjusted) immediate fits and the long form is not asked *)
+Theorem C17_x86_arith_mem_imm8_iff : forall op mem_size longform imm e,
+  (mem_size = 2 \/ mem_size = 4 \/ mem_size = 8) -> i64 imm -> arith_mem_imm true op mem_size longform imm = Some e ->
+  let v := if mem_size =? 4 then sign_extend_int32 imm else imm in
+  (ae_immsize e = 1 <-> (- 128 <= v < 128 /\ longform = false)) /\ (ae_opc e = 131 <-> ae_immsize e = 1).
+Proof. exact arith_mem_imm8_iff. Qed.
+Print Assumptions C17_x86_arith_mem_imm8_iff.
+
+Theorem C17_x86_push_imm8_iff : forall longform imm e,
+  i64 imm -> push_imm true longform imm = Some e ->
+  (ae_immsize e = 1 <-> (- 128 <= imm < 128 /\ longform = false)) /\ (ae_opc e = 106 <-> ae_immsize e = 1).
+Proof. exact push_imm8_iff. Qed.
+Print Assumptions C17_x86_push_imm8_iff.
+
+(* asmjit/arm/armutils.h re-extracted: fp imm8 template arguments and the constants of is_add_sub_imm / is_byte_mask_imm are
+   the ones the model computes with *)
+Theorem C17_armutils_current :
+  C17Layouts.gen_fp_params = expected_fp_params /\ C17Layouts.gen_arm_consts = expected_arm_consts.
+Proof. exact C17Layouts.gen_armutils_ok. Qed.
+Print Assumptions C17_armutils_current.
+
+Theorem C17_arm_consts_used :
+  (forall n p, In (n, p) expected_fp_params -> fp_params n = p) /\
+  (forall imm, is_add_sub_imm imm = ((imm <=? nth 0 expected_arm_consts 0) ||
+                                     (Z.land imm (not64 (nth 0 expected_arm_consts 0 * 2 ^ nth 1 expected_arm_consts 0)) =? 0))) /\
+  (forall imm, is_byte_mask_imm imm = (imm =? (Z.land imm (nth 2 expected_arm_consts 0) * 255) mod 2 ^ 64)).
+Proof. exact arm_consts_used. Qed.
+Print Assumptions C17_arm_consts_used.
+
+(* 8-byte unsigned fields: bits outside the field untouched; every field value reached (uint64 reading) *)
+Theorem C17_unsigned64_write_offset_exact : forall f old off w,
+  ty f = UnsignedOffset -> wf_contig64 f -> int64 off -> 0 <= old ->
+  write_offset f old off = Some w ->
+  Z.land w (Z.lnot (field_mask f)) = Z.land old (Z.lnot (field_mask f)).
+Proof. exact unsigned64_write_offset_exact. Qed.
+Print Assumptions C17_unsigned64_write_offset_exact.
+
+Theorem C17_unsigned64_surjective : forall f r,
+  ty f = UnsignedOffset -> wf_contig64 f -> bits f + discard f <= 64 -> 0 <= r < 2 ^ bits f ->
+  let off := sextz 64 (r * 2 ^ discard f) in
+  int64 off /\ off mod 2 ^ 64 = r * 2 ^ discard f /\ encode_offset f off = Some (r * 2 ^ shift f).
+Proof. exact unsigned64_surjective. Qed.
+Print Assumptions C17_unsigned64_surjective.
+
+(* every OffsetFormat the x86 / a64 backends and the core assembler build (all call sites of reset_to_simple_value /
+   reset_to_imm_value, re-extracted from the source text) satisfies the hypotheses of the round-trip and refusal theorems above:
+   signed contiguous (the C17_signed theorems), unsigned contiguous 1/2/4 bytes (C17_unsigned) or 8 bytes (C17_unsigned64), ADR/ADRP *)
+Theorem C17_used_formats_current : C17Layouts.gen_used_formats = expected_used_formats.
+Proof. exact C17Layouts.gen_used_formats_ok. Qed.
+Print Assumptions C17_used_formats_current.
+
+Theorem C17_used_formats_covered : forall f, In f expected_used_formats ->
+  (ty f = SignedOffset /\ wf_contig f) \/ (ty f = UnsignedOffset /\ (wf_contig32 f \/ wf_contig64 f)) \/ is_adr_fmt f.
+Proof. exact used_formats_covered. Qed.
+Print Assumptions C17_used_formats_covered.
+
+(* end to end, no hypothesis on the format left: every format the backends build round-trips for every int64 offset it accepts
+   (8-byte unsigned fields over the uint64 reading) and refuses exactly the offsets without a field value *)
+From Verif Require Import Codec.UsedFormatsProofs.
+
+Theorem C17_used_formats_roundtrip : forall f off m,
+  In f expected_used_formats -> int64 off -> encode_offset f off = Some m -> decoded f m = meant f off.
+Proof. exact used_formats_roundtrip. Qed.
+Print Assumptions C17_used_formats_roundtrip.
+
+Theorem C17_used_formats_refused_iff : forall f off,
+  In f expected_used_formats -> int64 off ->
+  (encode_offset f off = None <->
+   ~ match ty f with
+     | UnsignedOffset => unsigned_ok f (meant f off)
+     | _ => signed_ok f off
+     end).
+Proof. exact used_formats_refused_iff. Qed.
+Print Assumptions C17_used_formats_refused_iff.
+
+(* removal of a hypothesis: with width 32 the encoder never looks above bit 31, so soundness and exact refusal hold for EVERY
+   (uint64) argument with the value read modulo 2^32 *)
+From Verif Require Import Codec.LogImmUpperProofs.
+
+Theorem C17_logical_imm32_upper_bits_ignored : forall imm,
+  encode_logical_imm imm 32 = encode_logical_imm (imm mod 2 ^ 32) 32.
+Proof. exact logical_imm32_upper_bits_ignored. Qed.
+Print Assumptions C17_logical_imm32_upper_bits_ignored.
+
+Theorem C17_logical_imm32_sound_any : forall imm e,
+  encode_logical_imm imm 32 = Some e ->
+  decode_bit_masks 32 (li_n e) (li_s e) (li_r e) = Some (imm mod 2 ^ 32) /\
+  0 <= li_n e < 2 /\ 0 <= li_s e < 64 /\ 0 <= li_r e < 64.
+Proof. exact logical_imm32_sound_any. Qed.
+Print Assumptions C17_logical_imm32_sound_any.
+
+Theorem C17_logical_imm32_refused_iff_any : forall imm,
+  (encode_logical_imm imm 32 = None <->
+   ~ exists n s r, 0 <= n < 2 /\ 0 <= s < 64 /\ 0 <= r < 64 /\ decode_bit_masks 32 n s r = Some (imm mod 2 ^ 32)).
+Proof. exact logical_imm32_refused_iff_any. Qed.
+Print Assumptions C17_logical_imm32_refused_iff_any.
+
+(* BFC (BFI from the zero register) and ROR #imm (EXTR Rd, Rn, Rn) *)
+Theorem C17_bitfield_bfc : forall size lsb width r s dst, size_ok size -> 0 <= lsb -> 0 <= width -> 0 <= dst < 2 ^ size ->
+  encode_bitfield Bfi size lsb width = Some (r, s) ->
+  exists v, bfm_pc size r s dst 0 = Some v /\ 0 <= v < 2 ^ size /\
+    forall i, 0 <= i < size -> Z.testbit v i = if (lsb <=? i) && (i <? lsb + width) then false else Z.testbit dst i.
+Proof. exact bfc_correct. Qed.
+Print Assumptions C17_bitfield_bfc.
+
+Theorem C17_bitfield_ror : forall size sh imms src, size_ok size -> 0 <= sh -> 0 <= src < 2 ^ size ->
+  encode_ror_imm size sh = Some imms ->
+  imms = sh /\ 0 <= imms < size /\ extr_pc size src src imms = ror_n size src sh.
+Proof. exact ror_extr_correct. Qed.
+Print Assumptions C17_bitfield_ror.
+
+(* completeness for the non-contiguous formats: every representable displacement is accepted *)
+Theorem C17_adr_complete : forall f o,
+  is_adr_fmt f -> - 2 ^ 20 <= o < 2 ^ 20 ->
+  exists m, encode_offset f (o * 2 ^ discard f) = Some m /\ decode_a64_adr m = o.
+Proof. exact adr_complete. Qed.
+Print Assumptions C17_adr_complete.
+
+Theorem C17_signbit_complete : forall f v (neg : bool),
+  is_t32_adr_fmt f \/ is_a32_u23_fmt f \/ is_a32_u23_split_fmt f -> 0 <= v < 2 ^ bits f ->
+  exists m, encode_offset f ((if neg then - v else v) * 2 ^ discard f) = Some m.
+Proof. exact signbit_complete. Qed.
+Print Assumptions C17_signbit_complete.
+
+(* MOV r64, imm form selection is exact: movabs only when no shorter form loads the value (or the long form is requested),
+   REX.W C7 /0 id exactly for int32 values not taken by the zero-extending 32-bit form *)
+Theorem C17_x86_mov_reg_imm_forms : forall size acc optsize longform imm, size_ok4 size -> i64 imm ->
+  let e := mov_reg_imm size acc optsize longform imm in
+  (ae_immsize e = 8 <-> size = 8 /\ (longform = true \/ (~ (- 2 ^ 31 <= imm < 2 ^ 31) /\ ~ (optsize = true /\ 0 <= imm < 2 ^ 32)))) /\
+  (ae_opc e = 199 <-> size = 8 /\ longform = false /\ - 2 ^ 31 <= imm < 2 ^ 31 /\ ~ (optsize = true /\ 0 <= imm)) /\
+  (size <> 8 -> ae_immsize e = size).
+Proof. exact mov_reg_imm_forms. Qed.
+Print Assumptions C17_x86_mov_reg_imm_forms.
+
+Theorem C17_x86_imul_imm8_iff : forall mem size longform imm e,
+  (size = 2 \/ size = 4 \/ size = 8) -> i64 imm -> imul_imm true mem size longform imm = Some e ->
+  let v := if mem && (size =? 4) then sign_extend_int32 imm else imm in
+  (ae_immsize e = 1 <-> (- 128 <= v < 128 /\ longform = false)) /\ (ae_opc e = 107 <-> ae_immsize e = 1).
+Proof. exact imul_imm8_iff. Qed.
+Print Assumptions C17_x86_imul_imm8_iff.
+
+Theorem C17_x86_arith_reg_imm8_iff : forall op size optsize longform imm e,
+  (size = 2 \/ size = 4 \/ size = 8) -> i64 imm -> arith_reg_imm op size false optsize longform imm = Some e ->
+  let v := if size =? 4 then sign_extend_int32 imm else imm in
+  (ae_immsize e = 1 <-> (- 128 <= v < 128 /\ longform = false)) /\ ae_short e = false /\ (ae_opc e = 131 <-> ae_immsize e = 1).
+Proof. exact arith_reg_imm8_iff. Qed.
+Print Assumptions C17_x86_arith_reg_imm8_iff.
+
+(* removal of a hypothesis: the half-precision predicate/encoder take a uint32 and never look above bit 15 *)
+From Verif Require Import Codec.Fp16UpperProofs.
+
+Theorem C17_fp16_upper_bits_ignored : forall v, 0 <= v ->
+  fp_is 16 v = fp_is 16 (v mod 2 ^ 16) /\ fp_enc 16 v = fp_enc 16 (v mod 2 ^ 16).
+Proof. exact fp16_upper_bits_ignored. Qed.
+Print Assumptions C17_fp16_upper_bits_ignored.
+
+Theorem C17_fp16_sound_any : forall v, 0 <= v -> fp_is 16 v = true -> vfp_expand_imm 16 (fp_enc 16 v) = v mod 2 ^ 16.
+Proof. exact fp16_sound_any. Qed.
+Print Assumptions C17_fp16_sound_any.
+
+(* the numbering of OffsetType values used by the model driver is the position in the re-extracted enumerator order: a bijection *)
+Theorem C17_otype_of_index_spec : forall t,
+  exists i, 0 <= i < 12 /\ otype_of_index i = Some t /\ forall j, otype_of_index j = Some t -> j = i.
+Proof. exact otype_of_index_spec. Qed.
+Print Assumptions C17_otype_of_index_spec.
+
+(* byte-level frame condition for any word-level patch function, hence for the model of HEAD (write_offset_var true true) *)
+Theorem C17_write_bytes_with_exact : forall wo f region vo off region',
+  (0 < Z.to_nat (vsize f))%nat ->
+  write_bytes_with wo f region vo off = Some region' ->
+  let n := Z.to_nat (vsize f) in
+  length region' = length region /\
+  (forall i d, (i < vo \/ vo + n <= i)%nat -> nth i region' d = nth i region d) /\
+  exists w, wo f (le_join (firstn n (skipn vo region))) off = Some w /\ firstn n (skipn vo region') = le_split n w.
+Proof. exact write_bytes_with_exact. Qed.
+Print Assumptions C17_write_bytes_with_exact.
+
+(* the bit-field alias cases of a64assembler.cpp (BaseBfc, BaseBfi, BaseBfm, BaseBfx, LSL #imm) re-extracted from the source text
+   as rules (operand guards, field expressions, which goes to immr / imms) denote exactly the alias model, for every operand pair *)
+From Verif Require Import Codec.BfRulesProofs.
+
+Theorem C17_bf_rules_current : C17Layouts.gen_bf_rules = expected_bf_rules.
+Proof. exact C17Layouts.gen_bf_rules_ok. Qed.
+Print Assumptions C17_bf_rules_current.
+
+Theorem C17_bf_rules_denote : forall size a b,
+  map (fun r => eval_bf_rule r size a b) expected_bf_rules =
+  [ encode_bitfield Bfi size a b; encode_bitfield Bfi size a b; encode_bitfield Bfm size a b; encode_bitfield Bfx size a b;
+    encode_bitfield ShLsl size a b ].
+Proof. exact bf_rules_denote. Qed.
+Print Assumptions C17_bf_rules_denote.
